@@ -48,6 +48,13 @@ impl Prop for C15 {
             20001
         }
     }
+    fn run_cap_secs(&self, tier: Tier) -> u64 {
+        if tier == Tier::Quick {
+            30
+        } else {
+            900 // the ~4.3 GB chain
+        }
+    }
     fn required_probes(&self, tier: Tier) -> Vec<&'static str> {
         let mut v = vec!["gap_sum_over_u32", "non_monotonic_timestamps", "tie_for_biggest_value", "tie_for_biggest_size", "coinbase_above_subsidy", "coinbase_below_subsidy", "height_around_halving", "sub_range"];
         if tier == Tier::Thorough {
